@@ -1,6 +1,7 @@
 import GwModel.ScrubLemmas
 import GwModel.Gen.Facts
 import GwModel.ScrubApply
+import GwModel.PlanInject
 /-! # C04 — Responses hold exactly the requested keys; join ids never leak or vanish
 
 Proved on the model of the scrub-path computation (`Scrub`, mirroring generateScrubFields and generateScrubFieldsWalk and
@@ -58,6 +59,35 @@ theorem scrubbing_one_place_leaves_the_others (p q : List Fp.RPt) (x : Ins.J) (o
     (hp : Fp.walk x p = some (.obj op)) (hq : Fp.walk x q = some (.obj oq)) (h : Fp.Parts p q) :
     ∃ x', Scr.deleteAt x (p.map Fp.toPt) = some x' ∧ Fp.walk x' q = some (.obj oq) :=
   Scr.deleteAt_frame p q x op oq hp hq h
+
+/-- **the planner adds the join `id` only where a follow-up step is inserted** (`Pl`, the model of plan.go tied by
+    the L1.plan correspondence; documents without named fragments): wherever the query of a step holds an `id` the
+    planner put there — the client's own `id` fields carry the type they were validated against and are never
+    taken for it — the plan has a step hanging off that step whose insertion point is exactly that place.  With
+    `scrub_paths_exact` (every insertion point where the client did not ask for `id` is listed) and
+    `the_join_id_is_removed_where_listed`, no `id` the planner adds survives into the response. -/
+theorem every_id_the_planner_adds_is_at_a_join_point {env : Pl.Env} {fuel : Nat} {operation : String}
+    {sels : List Pl.Sel} {steps : List Pl.Step} (hns : Pl.noSpreadL sels = true) (hu : Pl.unmarkedL sels = true)
+    (h : Pl.planOperation env fuel operation sels = .ok steps) :
+    ∀ t ∈ steps, ∀ p, Pl.InjectedAt t.sel p → ∃ u ∈ steps, u.parent = some t.id ∧ u.ip = t.ip ++ p :=
+  Pl.planOperation_injected_ids_are_join_points hns hu h
+
+/-- non-vacuity: `{ me { firstName lastName } }` with `lastName` served elsewhere — the client's selection is
+    unmarked, the step for A gets `me { firstName id }` and the step for B is inserted at [me] (step 0 is the
+    empty root step, which is never sent: its `id` stands for the root steps hanging off it at []) -/
+def exEnv : Pl.Env :=
+  { routes := [("Query.me", ["A"]), ("User.firstName", ["A"]), ("User.lastName", ["B"]), ("User.id", ["A", "B"])],
+    configured := [], internal := "gw", planFrags := [] }
+def exSels : List Pl.Sel :=
+  [.field "me" "me" "" [] [] "User" [.field "firstName" "firstName" "" [] [] "String" [],
+                                      .field "lastName" "lastName" "" [] [] "String" []]]
+example : Pl.noSpreadL exSels = true ∧ Pl.unmarkedL exSels = true := by decide
+example : (Pl.planOperation exEnv 10 "query" exSels).toOption.map
+      (fun steps => steps.map (fun s => (s.id, s.parent, s.ip))) =
+    some [(0, none, []), (1, some 0, []), (2, some 1, ["me"])] := by decide
+example : (Pl.planOperation exEnv 10 "query" exSels).toOption.map
+      (fun steps => steps.map (fun s => (Pl.leafPathsL s.sel, Pl.unmarkedL s.sel))) =
+    some [([["id"]], false), ([["me", "firstName"], ["me", "id"]], false), ([["lastName"]], true)] := by decide
 
 /-- non-vacuity: `{ me { firstName friends { id nick } } }` with steps at [me] and [me, friends] -/
 example :
